@@ -294,6 +294,14 @@ func Offers(from, to *Node) []consensus.Message {
 				out = append(out, &consensus.VoteSetMaj23Message{Height: b.Height, Round: b.Round, Type: kproto.PrecommitType, BlockID: id})
 			}
 		}
+		// … and for the POL round of the proposal the receiver holds ("Send Height/Round/ProposalPOL")
+		if b.Proposal != nil && b.Proposal.POLRound != 0 {
+			if vs := a.Votes.Prevotes(b.Proposal.POLRound); vs != nil {
+				if id, ok := vs.TwoThirdsMajority(); ok {
+					out = append(out, &consensus.VoteSetMaj23Message{Height: b.Height, Round: b.Proposal.POLRound, Type: kproto.PrevoteType, BlockID: id})
+				}
+			}
+		}
 		for r := uint32(1); r <= a.Round+1; r++ {
 			for _, typ := range []kproto.SignedMsgType{kproto.PrevoteType, kproto.PrecommitType} {
 				var vs, ws *types.VoteSet
@@ -502,4 +510,32 @@ func (n *Net) FireTimeoutNoDrain(i int) bool {
 		n.After()
 	}
 	return true
+}
+
+// DescribeOffers summarises what every up node of the group could still offer to every other one (debug aid for
+// no-progress states).
+func (n *Net) DescribeOffers(group []int) string {
+	var out []string
+	for _, i := range group {
+		for _, j := range group {
+			if i == j || n.down(i) || n.down(j) {
+				continue
+			}
+			cnt := map[string]int{}
+			for _, m := range Offers(n.Nodes[j], n.Nodes[i]) {
+				switch x := m.(type) {
+				case *consensus.VoteMessage:
+					cnt[fmt.Sprintf("vote(%d/%d/%d)", x.Vote.Height, x.Vote.Round, x.Vote.Type)]++
+				case *consensus.VoteSetMaj23Message:
+					cnt[fmt.Sprintf("maj23(%d/%d/%d)", x.Height, x.Round, x.Type)]++
+				default:
+					cnt[fmt.Sprintf("%T", m)]++
+				}
+			}
+			if len(cnt) > 0 {
+				out = append(out, fmt.Sprintf("n%d<-n%d:%v", i, j, cnt))
+			}
+		}
+	}
+	return strings.Join(out, " ")
 }
